@@ -584,4 +584,117 @@ theorem world_ledger_initial (now : Int) (g : GroupV) (banks : List WBank) (n : 
 
 end whole_instructions
 
+section whole_instructions
+open Mfi Mfi.Fx Mfi.Bank Mfi.Gen Mfi.Venue Mfi.Ix
+
+/-! ### Solend and Drift venue banks at instruction level (Mfi/Model/Venue.lean) -/
+
+/-- **solend deposit**: an accepted Solend deposit books exactly the collateral that arrived in the bank's obligation, within
+    one unit of marginfi's own conversion, and the bank total moves by exactly what the position moves -/
+theorem solend_deposit_spec {now expected pre post t : Int} {b b' : Bank} {bal : Option Balance} {x' : Option Balance}
+    (h : solendDeposit now b bal expected pre post = .ok (b', x', t)) :
+    t = post - pre ∧ 0 ≤ t ∧ t - expected ≤ 1 ∧ expected - t ≤ 1 ∧
+    ∃ y, x' = some y ∧ b'.sa - b.sa = y.a - (bal.getD (freshBalance b now)).a ∧
+                        b'.sl - b.sl = y.l - (bal.getD (freshBalance b now)).l := by
+  unfold solendDeposit at h
+  split at h
+  · cases h
+  · rename_i hlt
+    split at h
+    · cases h
+    · rename_i hw
+      have hw' : withinOne (post - pre) expected = true := by
+        cases hwo : withinOne (post - pre) expected <;> simp_all
+      obtain ⟨hw1, hw2⟩ := (withinOne_iff _ _).mp hw'
+      obtain ⟨r, hr, h⟩ := Res.bind_ok h
+      injection h with h
+      injection h with hb hrest
+      injection hrest with hx ht
+      subst hb; subst hx; subst ht
+      have hd := increase_delta_eq (b0 := b) (x0 := bal.getD (freshBalance b now)) (b' := r.1) (x' := r.2)
+        (now := now) (delta := ofInt (post - pre)) (t := .depositOnly) (by rw [hr])
+      exact ⟨rfl, by omega, hw1, hw2, r.2, rfl, hd.1, hd.2⟩
+
+/-- **solend withdraw**: an accepted Solend withdrawal debits the position by the collateral given up, `c`, while the
+    obligation lost between `c - 1` and `c + 1` — the handler tolerates one unit either way, so the books and the
+    obligation can drift apart by one unit of collateral per withdrawal (the backing of a Solend bank is exact only up to
+    that tolerance); the user is paid exactly what arrived in the intermediary vault, within one unit of marginfi's own
+    conversion of `c` -/
+theorem solend_withdraw_spec {now amount obPre obPost vPre vPost : Int} {all : Bool} {expectedOf : Int → Int}
+    {b : Bank} {x : Balance} {o : WOut}
+    (h : solendWithdraw now b (some x) amount all expectedOf obPre obPost vPre vPost = .ok o) :
+    (obPre - obPost) - o.collateral ≤ 1 ∧ o.collateral - (obPre - obPost) ≤ 1 ∧
+    o.paid = vPost - vPre ∧ o.paid - expectedOf o.collateral ≤ 1 ∧ expectedOf o.collateral - o.paid ≤ 1 ∧
+    (all = false → o.collateral = amount ∧ o.bank.sa - b.sa = o.bal.a - x.a) ∧
+    (all = true → o.bank.sa = b.sa - x.a ∧ o.bal.a = 0) := by
+  unfold solendWithdraw at h
+  simp only at h
+  obtain ⟨⟨b', x', c⟩, hcore, h⟩ := Res.bind_ok h
+  dsimp only at h
+  split at h
+  · cases h
+  · split at h
+    · cases h
+    · rename_i hw1
+      split at h
+      · cases h
+      · split at h
+        · cases h
+        · rename_i hw2
+          injection h with h
+          subst h
+          have w1 : withinOne (obPre - obPost) c = true := by
+            cases hwo : withinOne (obPre - obPost) c <;> simp_all
+          have w2 : withinOne (vPost - vPre) (expectedOf c) = true := by
+            cases hwo : withinOne (vPost - vPre) (expectedOf c) <;> simp_all
+          obtain ⟨a1, a2⟩ := (withinOne_iff _ _).mp w1
+          obtain ⟨a3, a4⟩ := (withinOne_iff _ _).mp w2
+          refine ⟨a1, a2, rfl, a3, a4, ?_, ?_⟩
+          · intro hall
+            subst hall
+            simp only [Bool.false_eq_true, if_false] at hcore
+            cases hd : decreaseBalance b x now (ofInt amount) .withdrawOnly with
+            | error e => simp [hd, Except.map] at hcore
+            | ok p =>
+              simp only [hd, Except.map] at hcore
+              injection hcore with hcore
+              injection hcore with e1 e2
+              injection e2 with e2 e3
+              subst e1; subst e2; subst e3
+              exact ⟨rfl, (decrease_delta_eq hd).1⟩
+          · intro hall
+            subst hall
+            simp only [if_true] at hcore
+            obtain ⟨e1, _, e3, _⟩ := withdraw_all_delta hcore
+            exact ⟨e1, e3⟩
+
+/-- **drift deposit**: an accepted Drift deposit books exactly the scaled balance the bank's Drift user gained, which is exactly
+    what Drift's own increment formula announces for the amount; the bank total moves by what the position moves -/
+theorem drift_deposit_spec {now amount dec cum pre post t : Int} {b b' : Bank} {bal : Option Balance} {x' : Option Balance}
+    (h : driftDeposit now b bal amount dec cum pre post = .ok (b', x', t)) :
+    t = post - pre ∧ Integr.scaledBalanceIncrement dec cum amount = some t ∧
+    ∃ y, x' = some y ∧ b'.sa - b.sa = y.a - (bal.getD (freshBalance b now)).a ∧
+                        b'.sl - b.sl = y.l - (bal.getD (freshBalance b now)).l := by
+  unfold driftDeposit at h
+  split at h
+  · cases h
+  · rename_i expected hexp
+    split at h
+    · cases h
+    · split at h
+      · cases h
+      · rename_i _ heq
+        have heq' : post - pre = expected := by
+          by_contra hne; exact heq hne
+        obtain ⟨r, hr, h⟩ := Res.bind_ok h
+        injection h with h
+        injection h with hb hrest
+        injection hrest with hx ht
+        subst hb; subst hx; subst ht
+        have hd := increase_delta_eq (b0 := b) (x0 := bal.getD (freshBalance b now)) (b' := r.1) (x' := r.2)
+          (now := now) (delta := ofInt (post - pre)) (t := .depositOnly) (by rw [hr])
+        exact ⟨rfl, by rw [heq']; exact hexp, r.2, rfl, hd.1, hd.2⟩
+
+end whole_instructions
+
 end Mfi.Props.C02
